@@ -116,15 +116,15 @@ theorem genOf_le_invGenNext (g : List (SessKey × Nat)) (k k' : SessKey) :
 
 /-! ### recording a new call -/
 
-theorem newInvk_id (s : DState) (caller : SessKey) (req : Nat) (callee : SessKey) (opts : Dict) :
-    (newInvk s caller req callee opts).id = ⟨callee, genOf s.invGen callee + 1⟩ := by
+theorem newInvk_id (s : DState) (reg : Reg) (caller : SessKey) (req : Nat) (callee : SessKey) (opts : Dict) :
+    (newInvk s reg caller req callee opts).id = ⟨callee, genOf s.invGen callee + 1⟩ := by
   simp [newInvk, invGenNext_fst]
 
-theorem DealerInv.recordCall {s : DState} (h : DealerInv s) {caller : SessKey} {req : Nat} {callee : SessKey}
+theorem DealerInv.recordCall {s : DState} (h : DealerInv s) {reg : Reg} {caller : SessKey} {req : Nat} {callee : SessKey}
     {opts : Dict} (hc : (⟨caller, req⟩ : ReqId) ∉ s.d.calls) :
-    DealerInv (recordCall s (newInvk s caller req callee opts) callee) := by
-  have hvid := newInvk_id s caller req callee opts
-  generalize hv : newInvk s caller req callee opts = v at *
+    DealerInv (recordCall s (newInvk s reg caller req callee opts) callee) := by
+  have hvid := newInvk_id s reg caller req callee opts
+  generalize hv : newInvk s reg caller req callee opts = v at *
   have hvc : v.callId = ⟨caller, req⟩ := by subst hv; rfl
   have hve : v.callee = callee := by subst hv; rfl
   have hvt : v.timer = none := by subst hv; rfl
@@ -519,15 +519,15 @@ theorem firstChunk_inv {env : DEnv} {s : DState} (h : DealerInv s) {reg : Reg} (
   split
   · exact h1
   · exact h1
-  · have h2 := h1.recordCall (caller := caller) (req := req) (callee := callee) (opts := opts) hc
+  · have h2 := h1.recordCall (reg := reg) (caller := caller) (req := req) (callee := callee) (opts := opts) hc
     refine dispatch_inv h2 ?_ rfl _ _ _ _
     show _ ∈ _ ++ [_]
     exact List.mem_append_right _ (List.mem_singleton.2 rfl)
 
-theorem laterChunk_inv {env : DEnv} {s : DState} (h : DealerInv s) (reg : Reg)
+theorem laterChunk_inv {env : DEnv} {s : DState} (h : DealerInv s)
     {caller : SessKey} {req : Nat} (opts : Dict) (args : List WVal) (kw : Dict) {iid : ReqId} {v0 : Invk}
     (hb : s.d.byCall? ⟨caller, req⟩ = some iid) (hf : s.d.findInv iid = some v0) :
-    DealerInv (laterChunk env s reg caller req opts args kw iid v0).st := by
+    DealerInv (laterChunk env s caller req opts args kw iid v0).st := by
   obtain ⟨_, v, hf', hv, hvi, hvc, _⟩ := h.call.byCall?_some hb
   rw [hf] at hf'; cases hf'
   unfold laterChunk
@@ -540,38 +540,31 @@ theorem laterChunk_inv {env : DEnv} {s : DState} (h : DealerInv s) (reg : Reg)
   exact (mem_map_update (f := fun x : Invk => x.id) (u := fun _ => { v0 with inProgress := opts.optFlag OptProgress })).2
     (Or.inr ⟨v0, hv, rfl, rfl⟩)
 
-theorem noProc_inv {env : DEnv} {s : DState} (h : DealerInv s) (caller : SessKey) (req : Nat) :
-    DealerInv (noProc env s caller req).st := by
-  unfold noProc
-  split
-  · exact syncCancel_inv h ..
-  · exact h
-
 theorem syncCall_inv {env : DEnv} {s : DState} (h : DealerInv s) (caller : SessKey) (req : Nat) (opts : Dict)
     (proc : String) (args : List WVal) (kw : Dict) (rnd : Nat) :
     DealerInv (syncCall env s caller req opts proc args kw rnd).st := by
   rw [syncCall_eq]
   split
-  · exact noProc_inv h ..
-  · rename_i reg hm
-    have hmem := matchProcedure_mem hm
+  · rename_i iid hb
     split
-    · exact noProc_inv h ..
-    · split
+    · exact h
+    · rename_i v0 hf
+      split
+      · exact h
+      · exact laterChunk_inv h opts args kw hb hf
+  · rename_i hb
+    split
+    · exact h
+    · rename_i reg hm
+      have hmem := matchProcedure_mem hm
+      split
       · exact h
       · split
-        · rename_i hb
-          split
+        · exact h
+        · split
           · exact h
           · rename_i callee reg' hp
             exact firstChunk_inv h hmem opts proc args kw (pickCallee_shape hp).1 hb
-        · rename_i iid hb
-          split
-          · exact h
-          · rename_i v0 hf
-            exact laterChunk_inv h reg opts args kw hb hf
-
-
 
 /-! ### registrations -/
 
